@@ -37,6 +37,8 @@ TEMPLATES = {
     'mlx2': [["v({k},", "  '{o}')"], ["(v({k}, '{o}'),", " )[0]"]],
     # a bracketed statement with an empty docstring line inside (the empty line is not a template line)
     'mlb3': [["x{k} = p({k},", "       '{o}')"], ["x{k} = [p({k}, '{o}'),", "       0][0]"], ["x{k} = {{'a': p({k}, '{o}'),", "     'b': 2}}"]],
+    'cmpq2': [["if True:", "    x{k} = p({k})"], ["for _i{k} in [0]:", "    x{k} = p({k})"], ["with ctx():", "    x{k} = p({k})"]],
+    'mlq2': [["x{k} = [p({k}),", "       {k}][1]"], ["x{k} = p({k}", "       )"]],
     'ml3': [["x{k} = p({k},", "       '{o}',", "       )"],
             ["x{k} = [p({k}, '{o}'),", "       2,", "       3]"]],
     'tri3': [["x{k} = p({k}, '''{o}", "inner line {k}", "end{k}''')"],
@@ -98,7 +100,7 @@ def self_check_templates():
     the specification assumes for its shape: number of lines until balanced, statement starts, expression."""
     from_spec = {  # shape: (cont of first line, expr)
         'one': (0, False), 'expr': (0, True), 'semi': (0, True), 'ml2': (1, False), 'mlx2': (1, True), 'ml3': (2, False),
-        'tri3': (2, False), 'cmp2': (0, False), 'cmp3': (0, False), 'deco3': (0, False)}
+        'tri3': (2, False), 'cmp2': (0, False), 'cmp3': (0, False), 'deco3': (0, False), 'cmpq2': (0, False), 'mlq2': (1, False)}
     for shape, (cont, expr) in from_spec.items():
         for var in TEMPLATES[shape]:
             lines = [l.format(k=7, o='o7') for l in var]
